@@ -69,6 +69,11 @@ pub enum Op {
     /// From now on nothing is done for this hash: its RPCs are never applied,
     /// its parts never resolve, its pay commands never progress (C14).
     Freeze { hash: u8 },
+    /// E2: command for the component under test (e.g. new_block / query height).
+    Comp { cmd: String, arg: u64 },
+    /// E2 watcher: from here on notifications are lost and polls are answered
+    /// promptly; the height must catch up within one poll interval.
+    CatchupMark,
 }
 
 impl Op {
@@ -91,6 +96,8 @@ impl Op {
             Op::StdoutGrant { .. } => "stdout-grant",
             Op::QuiesceMark => "quiesce",
             Op::Freeze { .. } => "freeze",
+            Op::Comp { .. } => "comp",
+            Op::CatchupMark => "catchup-mark",
         }
     }
 
